@@ -34,6 +34,12 @@ struct Sigma {
     int site;
   };
   std::vector<RefInfo> refs;
+  // tag analysis: (region, reference into it, tags of the cell it points to)
+  struct TagInfo {
+    var_t rgn, ref;
+    std::set<int> tags;
+  };
+  std::vector<TagInfo> tags;
   std::string str() const;
 };
 
